@@ -55,6 +55,69 @@ def walk(prog, make_args, ts, dom=sxvm.FLOAT):
     return out
 
 
+def margin_walk(prog, make_args, ts, per_cell=32, dom=sxvm.FLOAT):
+    """windows that open and close again between two neighbours (a single comparison on a non-monotone quantity, e.g. sin^2(theta/2) < c
+    around every whole turn): both neighbours have the same signature, so `walk` sees nothing.  Here the operand DIFFERENCE of every
+    comparison (its margin) is followed on a finer grid (`per_cell` points per cell); where |margin| has a local minimum without a sign
+    change, the minimum is located by golden-section search, and if the margin changes sign there, the window's edges are bisected.
+    Returns boundary pairs (t_lo, t_hi) like `walk`, plus the point inside each window as (t_in, t_in)."""
+    def eval_(t):
+        m = []
+        s_ = sxvm.run(prog, make_args(t), dom, margins=m)[1]
+        return s_, m
+    ts = sorted(ts)
+    out = []
+    gr = (math.sqrt(5) - 1) / 2
+    for lo, hi in zip(ts, ts[1:]):
+        if not (hi > lo):
+            continue
+        if lo > 0 and hi / lo > 50:
+            pts = [lo * (hi / lo) ** (k / per_cell) for k in range(per_cell + 1)]
+        else:
+            pts = [lo + (hi - lo) * k / per_cell for k in range(per_cell + 1)]
+        ev = [eval_(t) for t in pts]
+        ncmp = min(len(m) for _, m in ev) if ev else 0
+        for j in range(ncmp):
+            g = [m[j] for _, m in ev]
+            for k in range(1, len(pts) - 1):
+                a, b, c = g[k - 1], g[k], g[k + 1]
+                if not all(math.isfinite(v) for v in (a, b, c)):
+                    continue
+                if (a > 0) == (b > 0) == (c > 0) and abs(b) <= abs(a) and abs(b) <= abs(c) and (abs(b) < abs(a) or abs(b) < abs(c)):
+                    # golden-section search for the minimum of |margin_j| on [pts[k-1], pts[k+1]]
+                    x0, x3 = pts[k - 1], pts[k + 1]
+                    x1, x2 = x3 - gr * (x3 - x0), x0 + gr * (x3 - x0)
+                    f1, f2 = eval_(x1)[1][j], eval_(x2)[1][j]
+                    sgn = b > 0
+                    found = None
+                    for _ in range(80):
+                        for xx, ff in ((x1, f1), (x2, f2)):
+                            if math.isfinite(ff) and (ff > 0) != sgn:
+                                found = xx
+                        if found is not None or not (x3 - x0) > 4e-16 * max(abs(x0), abs(x3), 1e-300):
+                            break
+                        if abs(f1) < abs(f2):
+                            x3, x2, f2 = x2, x1, f1
+                            x1 = x3 - gr * (x3 - x0)
+                            f1 = eval_(x1)[1][j]
+                        else:
+                            x0, x1, f1 = x1, x2, f2
+                            x2 = x0 + gr * (x3 - x0)
+                            f2 = eval_(x2)[1][j]
+                    if found is not None:
+                        s_in = eval_(found)[0]
+                        out.append((found, found))
+                        for outside in (pts[k - 1], pts[k + 1]):
+                            s_out = eval_(outside)[0]
+                            if s_out != s_in:
+                                def sig_of(t):
+                                    return sxvm.run(prog, make_args(t), dom)[1]
+                                a_, b_ = (outside, found) if outside < found else (found, outside)
+                                sa_ = sig_of(a_)
+                                out.append(bisect(sig_of, a_, b_, sa_, sig_of(b_)))
+    return out
+
+
 # ---------------------------------------------------------------------------------------------------------------------------
 # generic harvesting for the Lie-group explorers: members next to every comparison the compiled operation makes along designed rays
 # ---------------------------------------------------------------------------------------------------------------------------
@@ -149,9 +212,10 @@ def lie_members(B, op, seed, tier="quick"):
         n2 = n2 / np.linalg.norm(n2)
         for sc in (0.7, -3.0):
             rays.append((mk_for(vec_slots[1], lambda t, sc=sc: sc * np.linalg.norm(v1) * (math.cos(t) * v1u + math.sin(t) * n2)), phi_grid))
+    per_cell = 40 if tier == "thorough" else 12
     for mk, grid in rays:
         try:
-            for lo, hi in walk(prog, mk, grid):
+            for lo, hi in walk(prog, mk, grid) + margin_walk(prog, mk, grid, per_cell=per_cell):
                 for t in (lo, hi):
                     p = np.array(mk(t)[0], dtype=float)
                     if np.all(np.isfinite(p)):
